@@ -51,7 +51,8 @@ def judge_word(T, w):
     if w:
         # remove the first child, replace the last by a foreign element, serialise again
         f = explore.pick_foreign(T)
-        ops = [('R', 0)] + ([('P', len(w) - 1, f)] if len(w) > 1 else []) + [('S', False)]
+        # same-name replacement of the last child, removal of the first, replacement of the (new) last by a foreign one
+        ops = [('P', len(w) - 1, w[-1])] + ([('R', 0), ('P', len(w), f)] if len(w) > 1 else []) + [('S', False)]
         for op in ops:
             o = impl.apply(st, op)
             if not o.ok:
@@ -177,6 +178,48 @@ def work_pairs(chunk):
     return vio, dict(oc)
 
 
+def work_switched(T):
+    """(4) an element switched off through the xsd_check setter behaves like one constructed with xsd_check=False:
+    same outcomes and serialisation for additions in any order, xml_* shortcuts (set value, set instance, read, unset)
+    and removal"""
+    vio = []
+    n = 0
+    sigma = explore.reduced_alphabet(T)[:4]
+
+    def drive(e):
+        log = []
+        for a in sigma:
+            attr = 'xml_' + a.replace('-', '_')
+            cls = impl.class_for(a)
+            for step in ('add', 'set-value', 'read', 'set-instance', 'unset', 'add-again'):
+                if step in ('add', 'add-again'):
+                    o = impl.call(e.add_child, impl.child(a))
+                elif step == 'set-value':
+                    o = impl.call(setattr, e, attr, impl.valid_value(cls))
+                elif step == 'read':
+                    o = impl.call(getattr, e, attr)
+                elif step == 'set-instance':
+                    o = impl.call(setattr, e, attr, impl.child(a))
+                else:
+                    o = impl.call(setattr, e, attr, None)
+                log.append((a, step, o.brief(), type(o.value).__name__ if step == 'read' and o.ok else None))
+            log.append(('to_string', serialise(e)[:3]))
+        return log
+    a = impl.fresh(T, check=False)
+    b = impl.fresh(T, check=True)
+    b.xsd_check = False
+    la, lb = drive(a), drive(b)
+    n = len(la)
+    if la != lb:
+        d = next((x, y) for x, y in zip(la, lb) if x != y)
+        vio.append({'scope': T, 'kind': 'unchecked-differs-from-checked', 'key': [T, 'switched-off-vs-constructed', list(map(str, d[0][:2]))],
+                    'observed': [str(d[0])[:200], str(d[1])[:200]]})
+    if any(x[2].startswith('exc') for x in la if len(x) == 4 and x[1] in ('add', 'add-again', 'set-instance', 'unset', 'read')):
+        first = next(x for x in la if len(x) == 4 and x[2].startswith('exc') and x[1] != 'set-value')
+        vio.append({'scope': T, 'kind': 'unchecked-raises', 'key': [T, 'shortcut', first[0], first[1]], 'observed': first[2]})
+    return vio, n
+
+
 def work_leafy(names):
     """classes WITHOUT a content model (simple and empty types): an unchecked instance still accepts any children,
     keeps them in insertion order and serialises them"""
@@ -240,13 +283,17 @@ def run(tier):
     for vio, n in core.pmap(work_leafy, [leafy[i:i + 20] for i in range(0, len(leafy), 20)]):
         run_.add_violations(vio)
         nleafy += n
+    nsw = 0
+    for vio, n in core.pmap(work_switched, impl.TYPES):
+        run_.add_violations(vio)
+        nsw += n
     if oc['ok'] == 0:
         guards.append('no word passed in part (1)')
     if pc['nested_checked_probes'] == 0 or pc['nested_unchecked_probes'] == 0:
         guards.append('no nested probe in part (2)')
     run_.assumptions += ['alphabet reduction R1 plus one foreign element per type', 'opaque leaf children']
     cov = {'states': nw, 'transitions': nw + sum(pc.values()), 'traces_validated_against_impl': nw + len(ps),
-           'word_outcomes': dict(oc), 'classes_without_content_model': len(leafy), 'leafy_words': nleafy, 'pairs': len(ps), 'pair_counters': dict(pc), 'per_type': per_type,
+           'word_outcomes': dict(oc), 'classes_without_content_model': len(leafy), 'leafy_words': nleafy, 'switched_off_steps': nsw, 'pairs': len(ps), 'pair_counters': dict(pc), 'per_type': per_type,
            'samples': [{'type': 'pitch', 'word': ['octave', 'fifths', 'step']}, {'pair': list(ps[0])}],
            'exhaustive': True, 'r1_check': r1,
            'rule': 'all words up to per-type length (budget %d) over reduced alphabet + foreign element on unchecked '
